@@ -350,6 +350,7 @@ pub fn upgrade_main(server: &mut Server, client: &mut ClientSession) {
 
     if let Err(err) = server.disable_cloexec_before_upgrade() {
         client.finish_failure(err.to_string());
+        return;
     }
 
     client.return_processing("Upgrading the main process...");
